@@ -61,11 +61,19 @@ Definition gated (hs : list handler) (g : gate) : list (string * string * gate) 
 Record facts := {
   f_sites : list gate_site;
   f_handlers : list handler;
-  f_check_permissions_formula : bool;
-  f_check_permissions_nil_returns : nat;
-  f_sender_has_permission_formula : bool;
-  f_validate_root_formula : bool
+  f_check_permissions_accepts : string;
+  f_sender_has_permission_accepts : string;
+  f_validate_root_accepts : string
 }.
+
+(** Model.v [permitted]: member of the stored contracts, or equal to the stored root *)
+Definition model_check_permissions : string :=
+  "set.New(k.Sudoers.Get(ctx).Contracts...).Has(contract.String())||contract.String()==k.Sudoers.Get(ctx).Root".
+(** Model.v [sender =? root s] on the strings (AddContracts / RemoveContracts) … *)
+Definition model_sender_has_permission : string := "sender==root".
+(** … and on the decoded addresses (ChangeRoot) *)
+Definition model_validate_root : string :=
+  "sdk.AccAddressFromBech32(pbSudoers.Root).Equals(sdk.AccAddressFromBech32(msg.Sender))".
 
 (** what the model assumes about the code, as a check on the generated facts *)
 Definition facts_ok (f : facts) : bool :=
@@ -77,5 +85,6 @@ Definition facts_ok (f : facts) : bool :=
   keys_eqb (map site_key (f_sites f)) expected_sites &&
   forallb gs_gate_first (f_sites f) &&
   (* the gate functions compute what the model's [permitted] / root test computes *)
-  f_check_permissions_formula f && Nat.eqb (f_check_permissions_nil_returns f) 1 &&
-  f_sender_has_permission_formula f && f_validate_root_formula f.
+  String.eqb (f_check_permissions_accepts f) model_check_permissions &&
+  String.eqb (f_sender_has_permission_accepts f) model_sender_has_permission &&
+  String.eqb (f_validate_root_accepts f) model_validate_root.
